@@ -19,7 +19,7 @@ func init() {
 		Explanation: "Decides placement and width of the capacity checks: (R-ORDER) in Compile every path to buildExpr passes through check(ast) with its error tested, and no call that can rewrite the tree (any function in whose call closure astNode.children or astNode.node is written: parse, optimize) can execute after check — flattening can raise an operand count, so a check placed before optimize would let 128+ operands reach the int8 field; " +
 			"(R-WIDTH) every narrowing integer conversion in the compile and evaluation closures whose operand is a length (of a children list, of the program, a loop index over the program, or a tree index derived from it) is matched to the quantity check bounds: the constant check compares len(children) with is <= the maximum of every type a children count is converted to (int8), and the constant it compares the node count with is <= the maximum of every type a program length/index is converted to (int16); " +
 			"(R-GROW) writers of Expr.nodes are enumerated: calAndSetNodes appends at most once per activation on each path (the recursion check counts); any other writer (event-node insertion, which doubles the program) is followed, before Compile returns the program, by a comparison of the final length with a constant <= MaxInt16 that returns an error; no arithmetic in an 8/16-bit signed type multiplies or shifts a length; " +
-			"(R-STACKCLASS) in Eval and TryEval the stack allocated under maxStackSize <= K has constant length >= K, the fall-through allocates the program length, and both functions use the same classes; (R-STACKMAX) maxStackSize is a running maximum updated for every node; (R-STACKREC) the height recurrence uses one adjusted predecessor in every arm and the evaluator's per-kind stack effects as deltas, and every node's osTop is its own height minus one. NOT decided: that calAndSetStackSize computes a true upper bound of stack use (array invariants over compile-time tables), and results at the limits.",
+			"(R-STACKCLASS) in Eval and TryEval the stack allocated under maxStackSize <= K has constant length >= K, the fall-through allocates the program length, and both functions use the same classes; (R-STACKMAX) maxStackSize is a running maximum updated for every node; (R-STACKREC) the height recurrence uses one adjusted predecessor in every arm and the evaluator's per-kind stack effects as deltas, and every node's osTop is its own height minus one. NOT decided: that calAndSetStackSize computes a true upper bound of stack use (array invariants over compile-time tables), and results at the limits. Round 2: R-WIDTH fails on a narrowed length that no enforced limit bounds (only the children field of a tree node counts as bounded by the operand limit); R-NODEFRESH.",
 		Run:       runC09,
 		Witnesses: c09Witnesses,
 	})
